@@ -290,6 +290,7 @@ func (fr *Frame) frameObligations(ct *Contract, entry *State, r retInfo, ri int,
 			lockProtected["H_"+tname+"."+f] = true
 		}
 	}
+	individually := 0
 	var fams []string
 	for f := range vc.famSort {
 		if strings.HasPrefix(f, "GV_") {
@@ -330,10 +331,13 @@ func (fr *Frame) frameObligations(ct *Contract, entry *State, r retInfo, ri int,
 			}
 			goal = "(forall ((" + x + " Int)) (=> " + and(conds...) + " (= (select " + b + " " + x + ") (select " + a + " " + x + "))))"
 		}
-		if !touched[f] {
+		if !touched[f] || individually >= 40 {
+			// (at most 40 families get an obligation of their own: a function with an unresolved
+			// wildcard effect would otherwise produce one slow obligation per family of the program)
 			others = append(others, goal)
 			continue
 		}
+		individually++
 		fr.oblige("frame", fmt.Sprintf("%s.ret%d", sanitize(f), ri+1), goal, nil, r.blk.Instrs[len(r.blk.Instrs)-1].Pos(), "modifies clause: "+f+" unchanged outside "+strings.Join(ct.Modifies, ", "))
 	}
 	if len(others) > 0 {
